@@ -104,6 +104,9 @@ def op (toks : List String) : Option String :=
   | ["part", d, s, p] => do
       let d ← parseNat? d; let s ← parseNat? s; let p ← parseNat? p
       some s!"{floatPart d s p} {exactPart d s p}"
+  -- black-box scenario marker: the reply is `ok` (the implementation side answers `ok` only
+  -- when the scenario met all its monitors)
+  | "note" :: _ => some "ok"
   | _ => none
 
 end Cqos.DriverPure
